@@ -39,12 +39,21 @@ Definition run_spec (s : ustr) : spec_obs :=
                   (match sp_text sp with Some _ => true | None => false end).
 
 (* ---- kind `specb`: LogSpecBuilder ---- *)
-Inductive bop := BModule (n : ustr) (l : level) | BDefault (l : level) | BRemove (n : ustr).
+(* BFrom s: LogSpecBuilder::from_module_filters(parse(s).module_filters()) - a NEW map, without the entry (None, Off) that
+   LogSpecBuilder::new() starts with; BInsertFrom s: insert_modules_from(parse(s)); BLevel l:
+   from_module_filters(LogSpecification::from(l).module_filters()), i.e. one of LogSpecification::off() .. trace() *)
+Inductive bop := BModule (n : ustr) (l : level) | BDefault (l : level) | BRemove (n : ustr)
+               | BFrom (s : ustr) | BInsertFrom (s : ustr) | BLevel (l : level).
+Definition insert_all (fs : list mfilter) (m : list mfilter) : list mfilter :=
+  fold_left (fun acc f => map_insert (fst f) (snd f) acc) fs m.
 Definition bstep (m : list mfilter) (o : bop) : list mfilter :=
   match o with
   | BModule n l => map_insert (Some n) l m
   | BDefault l => map_insert None l m
   | BRemove n => filter (fun f : mfilter => negb (key_eqb (fst f) (Some n))) m
+  | BFrom s => insert_all (sp_filters (snd (parse lit_re_ok s))) []
+  | BInsertFrom s => insert_all (sp_filters (snd (parse lit_re_ok s))) m
+  | BLevel l => match l with O => [] | _ => [(None, l)] end   (* off() is the empty specification *)
   end.
 Definition run_builder (ops : list bop) : spec_obs :=
   observe_filters true (builder_finalize (fold_left bstep ops builder_new)) false.
